@@ -434,6 +434,8 @@ func (w *World) Exec(op Op) *Event {
 		return w.opRotate(op)
 	case "restart":
 		return w.opRestart(op)
+	case "sync":
+		return w.emit("sync", nil, nil)
 	}
 	panic("unknown op " + op.Op)
 }
